@@ -13,7 +13,7 @@ using Vec = ReusableVector<uint64_t, Alloc>;
 #endif
 #define VF_MAXN 6
 Res* res; Vec* v;
-uint64_t ref[VF_MAXN + 2]; uint64_t rn;
+uint64_t ref[VF_MAXN + 2]; uint64_t rn; uint64_t rcons;     // rcons: instances that must exist = largest size reached so far
 extern "C" void vf_init() {
   (void)Res::oversize_page_concurrent_adder();
   res = new Res; v = new Vec(Alloc{*res});
@@ -24,13 +24,15 @@ extern "C" void vf_init() {
 static void same() {
   vf_check(v->size() == rn, 1); vf_check(v->empty() == (rn == 0), 1);
   vf_check(v->size() <= v->constructed_size() && v->constructed_size() <= v->capacity(), 2);
+  if (rn > rcons) rcons = rn;
+  vf_check(v->constructed_size() == rcons, 5);       // retained instances are reused, never re-created beyond the high-water mark
   for (uint64_t i = 0; i < rn && i < VF_MAXN; ++i) vf_check((*v)[i] == ref[i], 1);
   if (rn > 0) { vf_check(v->front() == ref[0], 1); vf_check(v->back() == ref[rn - 1 < VF_MAXN ? rn - 1 : 0], 1); }
   uint64_t n = 0; for (auto it = v->begin(); it != v->end() && n <= VF_MAXN; ++it) { vf_check(n < rn && *it == ref[n < VF_MAXN ? n : 0], 1); n++; }
   vf_check(n == rn, 1);
 }
 extern "C" void vf_thread_0() {
-  uint64_t maxcap = v->capacity();
+  uint64_t maxcap = v->capacity(); rcons = v->constructed_size();
   for (int step = 0; step < VF_K; ++step) {
     uint64_t op = vf_nondet64(); vf_assume(op < 7);
     uint64_t a = vf_nondet64(); uint64_t val = 100 + step;
